@@ -40,6 +40,11 @@ Definition site_model_ok (c : site_case) : bool :=
                          && match post with sep :: post' => sep_ok sep && isoq post' | [] => false end
         | _ => false
         end
+      else if n =? 16 then      (* client description: aux = [docstring text before; after] *)
+        match aux with
+        | [pre; post] => str_eqb (q3 ++ pre ++ site_client_desc t ++ post ++ q3) out
+        | _ => false
+        end
       else if n =? 12 then site_docwriter_rel (join t aux) out && safe_doc_raw (concat aux)
       else if n =? 20 then   (* repr site: aux = [text before; text after; the non-ASCII characters of t that str.isprintable accepts] *)
         match aux with
@@ -104,7 +109,8 @@ Definition site_pred (n : N) (t : str) : bool :=
       if n =? 12 then inert_doc_b (block_line (ws_to_sp t))
       else if n =? 13 then inert_doc_b (site_tag_doc t)
       else if n =? 15 then inert_doc_b (site_client_title [49;46;48] t)
-      else if n =? 16 then scalar t
+      else if n =? 16 then     (* the description on its own lines of the class docstring (exact model of the clean-up) *)
+        inert_doc_b (q3 ++ 10 :: site_client_desc t ++ 10 :: q3)
       else if n =? 20 then
         match lex_lit (site_media_repr (fun _ => false) t) with Some (v, []) => str_eqb v t | _ => false end
       else if n =? 17 then   (* ASCII text: the attribute name is computed by the model; after the name only blanks or a comment *)
